@@ -17,17 +17,21 @@ from vlib.values import Tagged, canon, val
 PROPERTY_ID = "C08"
 LEVEL = "exploration"
 RULE = (
-    "Metamorphic. Per case a universe of truthy atoms {7001, 'qa', 'nn', (1,), [1], {'k':1}} (plus fixed points 7002, 'zz') and a "
-    "bijection sigma of a non-empty subset U onto falsy atoms that preserves ==/hashability: 7001 -> exactly one of 0 / 0.0 / False, "
-    "'qa' -> '', 'nn' -> None, (1,) -> (), [1] -> [], {'k':1} -> {}. A random well-kinded pipeline from the shared operator table "
-    "(check `pipelines`), or a Subject/BehaviorSubject/ReplaySubject/AsyncSubject driven from scheduled actions with 1-3 subscribers "
-    "arriving at generated times through operator chains biased to delay/skip_last/pairwise/take_last/buffer/... (check `subjects`), "
-    "is run twice: on the truthy inputs and on sigma(inputs); value-carrying arguments (start_with, default_if_empty, contains, "
-    "*_or_default defaults, seeds, zip_with_iterable values, publish_value / BehaviorSubject initial value) are mapped by sigma too and "
-    "every hash-based user callback decides on the pair-collapsed form of its arguments, so both runs take identical decisions. "
-    "Oracle: every probe and inner probe of the falsy run equals the truthy run element-wise (values compared after collapsing each "
-    "sigma pair, same kinds, same virtual times, same nesting). Non-trivial: a source actually emitted >=1 value that sigma changes and "
-    "the truthy run delivered >=1 on_next. Distinct = distinct case JSON."
+    "Metamorphic. Universe of truthy atoms {7001, 'qa', 'nn', (1,), [1], {'k':1}} (plus fixed points 7002, 'zz') and a bijection sigma of a "
+    "non-empty subset U onto falsy atoms that preserves ==/hashability: 7001 -> exactly one of 0 / 0.0 / False, 'qa' -> '', 'nn' -> None, "
+    "(1,) -> (), [1] -> [], {'k':1} -> {}. Every case is run twice on the real library: on the truthy inputs and on sigma(inputs); "
+    "value-carrying arguments (start_with, default_if_empty, contains, *_or_default defaults, seeds, zip_with_iterable values, publish_value / "
+    "BehaviorSubject initial value) are mapped by sigma too and every hash-based user callback decides on the pair-collapsed form of its "
+    "arguments, so both runs take identical decisions. Checks: `each_op` ENUMERATES every operator of the shared table (1-3 fixed argument "
+    "forms each, 167 forms over 127 operators) x each of the 8 falsy atoms x 7 input patterns (mixed, falsy element pending at completion, single, repeated "
+    "same-instant, error, empty, never-ending; cold and hot); `each_subject` enumerates Behavior/Replay(unbounded, size 1, window)/Async/plain "
+    "subjects x 8 atoms x 4 scripts x 8 operator chains (none, delay, skip_last, pairwise, take_last, buffer_with_count, take_last_buffer, "
+    "sample) with subscribers arriving before, during and after the script; `pipelines` draws random well-kinded pipelines (<=4 / <=6 "
+    "operators, 1-3 sources); `per_op` draws one operator uniformly with random arguments on a 4-8 element falsy-rich input; `subjects` "
+    "draws subject scripts with 1-3 subscribers (random arrival/unsubscribe times) behind random operator chains. Oracle: every probe and "
+    "inner probe of the falsy run equals the truthy run element-wise (values compared after collapsing each sigma pair, same kinds, same "
+    "virtual times, same nesting). Non-trivial: a source actually emitted >=1 value that sigma changes and the truthy run delivered >=1 "
+    "on_next. Distinct = distinct case JSON."
 )
 ASSUMPTIONS = [
     "operators relying on default == (distinct, distinct_until_changed, contains, sequence_equal without key/comparer) are given a hash key/comparer "
@@ -348,6 +352,98 @@ def _per_op_cases():
 
 
 # ---------------------------------------------------------------------------------------
+# check 3: every operator form x every falsy atom x input pattern (enumerated)
+
+H, A = "$H", "n:7002"  # hero (the truthy partner of the falsy atom under test) and a filler
+_PT = {"m": 4, "r": [0, 1, 2, 3]}
+_PF = {"m": 2, "r": []}
+_PH = {"m": 2, "r": [0]}
+_AUX = {"kind": "cold", "tl": [[2, "N", H], [4, "N", "x:zz"], [5, "N", H], [7, "C", None]]}
+_IN1 = {"kind": "cold", "tl": [[1, "N", H], [1, "C", None]]}
+_IN2 = {"kind": "cold", "tl": [[2, "N", H], [2, "C", None]]}
+_IN5 = {"kind": "cold", "tl": [[5, "N", H], [5, "C", None]]}
+_W2 = [["window_with_count", {"n": 2, "s": None}]]
+
+EACH = {
+    "pluck": [{}], "take": [{"n": 3}], "skip": [{"n": 1}], "take_last": [{"n": 2}, {"n": 5}], "skip_last": [{"n": 1}, {"n": 2}],
+    "take_last_buffer": [{"n": 2}], "pairwise": [{}], "start_with": [{"vs": [H, A, H]}], "default_if_empty": [{"v": H}],
+    "ignore_elements": [{}], "element_at": [{"n": 0}, {"n": 2}], "element_at_or_default": [{"n": 9, "v": H}, {"n": 0, "v": A}],
+    "materialize": [{}], "dematerialize": [{}], "as_observable": [{}], "slice": [{"a": 1, "b": None, "c": None}, {"a": -2, "b": None, "c": None}, {"a": 0, "b": -1, "c": 2}],
+    "to_list": [{}], "to_set": [{}], "is_empty": [{}], "merge": [{"os": [_AUX]}], "merge_max": [{"n": 1}, {"n": 2}], "concat": [{"os": [_AUX]}],
+    "amb": [{"o": _AUX}], "zip": [{"os": [_AUX]}], "zip_with_iterable": [{"vs": [H, A, H, H]}], "combine_latest": [{"os": [_AUX]}],
+    "with_latest_from": [{"os": [_AUX]}], "fork_join": [{"os": [_AUX]}], "take_until": [{"o": {"kind": "cold", "tl": [[4, "N", H]]}}],
+    "skip_until": [{"o": {"kind": "cold", "tl": [[2, "N", H]]}}], "catch": [{"o": _AUX}], "on_error_resume_next": [{"o": _AUX}],
+    "retry": [{"n": 2}], "repeat": [{"n": 2}], "merge_all": [{}], "switch_latest": [{}], "exclusive": [{}],
+    "window_with_count": [{"n": 2, "s": None}, {"n": 2, "s": 1}], "buffer_with_count": [{"n": 2, "s": None}, {"n": 2, "s": 1}, {"n": 1, "s": 2}],
+    "window_with_time": [{"t": 2, "s": None}], "buffer_with_time": [{"t": 2, "s": None}, {"t": 2, "s": 1}],
+    "window_with_time_or_count": [{"t": 3, "n": 2}], "buffer_with_time_or_count": [{"t": 3, "n": 2}], "window": [{"o": _AUX}], "buffer": [{"o": _AUX}],
+    "delay": [{"d": 2}, {"d": 0}], "delay_subscription": [{"d": 1}], "debounce": [{"d": 2}, {"d": 1}], "throttle_with_timeout": [{"d": 2}],
+    "throttle_first": [{"d": 2}], "sample": [{"d": 2}], "sample_obs": [{"o": _AUX}], "time_interval": [{}], "take_with_time": [{"d": 3}],
+    "skip_with_time": [{"d": 2}], "take_last_with_time": [{"d": 3}], "skip_last_with_time": [{"d": 2}], "take_until_with_time": [{"d": 3}],
+    "skip_until_with_time": [{"d": 2}], "timeout": [{"d": 5, "o": None}, {"d": 1, "o": _AUX}], "observe_on": [{}], "subscribe_on": [{}],
+    "share": [{}], "publish_ref_count": [{}], "replay_ref_count": [{"n": 2, "w": None}, {"n": None, "w": 2}], "publish_value_ref_count": [{"v": H}],
+    "map": [{"tag": "a"}], "map_indexed": [{"tag": "a"}], "starmap": [{"tag": "a"}], "starmap_indexed": [{"tag": "a"}],
+    "filter": [{"p": _PH}, {"p": _PT}], "filter_indexed": [{"p": _PT}], "take_while": [{"p": _PT, "inc": False}, {"p": _PH, "inc": True}],
+    "take_while_indexed": [{"p": _PT, "inc": False}], "skip_while": [{"p": _PH}, {"p": _PF}], "skip_while_indexed": [{"p": _PF}],
+    "distinct": [{"k": None, "c": None}, {"k": 3, "c": None}, {"k": None, "c": 2}],
+    "distinct_until_changed": [{"k": None, "c": None}, {"k": 2, "c": None}, {"k": None, "c": 2}],
+    "find": [{"p": _PH}, {"p": _PF}], "find_index": [{"p": _PH}], "reduce": [{"seed": None}, {"seed": H}], "scan": [{"seed": None}, {"seed": H}],
+    "count": [{"p": None}, {"p": _PH}], "sum": [{}], "average": [{}], "min": [{}], "max": [{}], "min_by": [{"k": 2}], "max_by": [{"k": 2}],
+    "to_dict": [{"k": 1000003}], "first": [{"p": None}, {"p": _PH}], "first_or_default": [{"p": _PF, "v": H}, {"p": None, "v": A}],
+    "last": [{"p": None}, {"p": _PH}], "last_or_default": [{"p": _PF, "v": H}, {"p": None, "v": A}], "single": [{"p": None}, {"p": _PH}],
+    "single_or_default": [{"p": _PF, "v": H}, {"p": None, "v": A}], "all": [{"p": _PT}], "some": [{"p": None}, {"p": _PF}],
+    "contains": [{"v": H, "c": None}, {"v": H, "c": 2}, {"v": "x:zz", "c": None}], "sequence_equal": [{"o": "$MAIN", "c": None}, {"o": _AUX, "c": None}],
+    "catch_handler": [{"os": [_IN1]}], "flat_map": [{"os": [_IN1]}], "flat_map_indexed": [{"os": [_IN1]}], "concat_map": [{"os": [_IN2]}],
+    "switch_map": [{"os": [_IN1]}, {"os": [_IN2]}], "switch_map_indexed": [{"os": [_IN1]}], "flat_map_latest": [{"os": [_IN1]}], "expand": [{"os": [_IN1]}],
+    "map_to_obs": [{"os": [_IN1]}], "window_when": [{"os": [_IN2]}], "buffer_when": [{"os": [_IN2]}], "window_toggle": [{"o": _AUX, "os": [_IN2]}],
+    "buffer_toggle": [{"o": _AUX, "os": [_IN2]}], "group_by": [{"k": 2, "e": True}, {"k": 1, "e": False}], "group_by_until": [{"k": 2, "e": False, "os": [_IN2]}],
+    "join": [{"o": _AUX, "l": [_IN2], "r": [_IN2]}], "group_join": [{"o": _AUX, "l": [_IN2], "r": [_IN2]}],
+    "delay_with_mapper": [{"sd": None, "os": [_IN1]}], "throttle_with_mapper": [{"os": [_IN2]}], "timeout_with_mapper": [{"f": None, "os": [_IN5], "o": None}],
+    "do_action": [{"n": True, "e": True, "c": True}], "finally_action": [{}], "publish_mapper": [{"tag": "a"}], "replay_mapper": [{"n": 2}],
+    "multicast_factory_mapper": [{"kind": "behavior"}, {"kind": "replay"}, {"kind": "subject"}], "while_do": [{"n": 2}], "do_while": [{"n": 1}],
+}
+_missing = sorted(n for n, o in OPS.items() if n not in EACH and "abstime" not in o.tags)
+if _missing or any(n not in OPS for n in EACH):
+    raise HarnessError(f"C08 each_op table out of date: missing {_missing}, unknown {[n for n in EACH if n not in OPS]}")
+EACH_PRE = {"dematerialize": [["materialize", {}]], "merge_all": _W2, "switch_latest": _W2, "exclusive": _W2, "merge_max": _W2}
+PATTERNS = {
+    "mix": [[1, "N", H], [2, "N", A], [3, "N", H], [4, "N", "x:zz"], [5, "N", H], [6, "C", None]],
+    "tail": [[1, "N", A], [3, "N", H], [3, "C", None]],  # falsy element still pending (buffers, timers) when completion arrives
+    "only": [[1, "N", H], [4, "C", None]],
+    "rep": [[1, "N", H], [1, "N", H], [2, "N", H], [5, "C", None]],
+    "err": [[1, "N", H], [2, "N", A], [3, "E", "e1"]],
+    "empty": [[2, "C", None]],
+    "open": [[1, "N", H], [3, "N", H]],  # never terminates
+}
+ATOMS = {"i0": "num", "f0": "num", "false": "num", "s": "str", "none": "none", "t": "tup", "l": "list", "d": "dict"}
+
+
+def _subst(x, hero, main):
+    if isinstance(x, str):
+        return hero if x == H else (main if x == "$MAIN" else x)
+    if isinstance(x, list):
+        return [_subst(e, hero, main) for e in x]
+    if isinstance(x, dict):
+        return {k: _subst(v, hero, main) for k, v in x.items()}
+    return x
+
+
+def _each_cases(tier):
+    for name in sorted(EACH):
+        for fi, args in enumerate(EACH[name]):
+            for atom, pair in ATOMS.items():
+                hero = PAIRS[pair]
+                for pat, tl in PATTERNS.items():
+                    for kind in ("cold", "hot") if pat in ("mix", "tail") else ("cold",):
+                        tl_ = _subst(tl, hero, None)
+                        main = {"kind": kind, "tl": tl_}
+                        other = {"kind": "cold", "tl": tl_}
+                        ops_ = list(EACH_PRE.get(name, [])) + [[name, _subst(args, hero, other)]]
+                        u = {"num": atom if pair == "num" else None, "pairs": [] if pair == "num" else [pair]}
+                        yield {"pipe": {"root": {"f": "single", "srcs": [main]}, "ops": ops_}, "u": u, "inner": "now", "form": f"{name}#{fi}", "atom": atom, "pat": pat}
+
+
+# ---------------------------------------------------------------------------------------
 # check 2: subjects as sources
 
 FOCUS = [
@@ -407,6 +503,37 @@ def _subject_cases(max_ops):
         }
     )
     return st.tuples(base, st.integers(0, 15), _u, st.sampled_from(["now", "now", None])).map(prep)
+
+
+SUBJ_KINDS = [
+    {"kind": "behavior", "init": H, "buf": None, "win": None},
+    {"kind": "behavior", "init": A, "buf": None, "win": None},
+    {"kind": "replay", "init": A, "buf": None, "win": None},
+    {"kind": "replay", "init": A, "buf": 1, "win": None},
+    {"kind": "replay", "init": A, "buf": None, "win": 2},
+    {"kind": "async", "init": A, "buf": None, "win": None},
+    {"kind": "subject", "init": A, "buf": None, "win": None},
+]
+SUBJ_SCRIPTS = {
+    "mix": [[0, "N", H], [2, "N", A], [4, "N", H], [5, "C", None]],
+    "tail": [[0, "N", A], [2, "N", H], [2, "C", None]],
+    "err": [[1, "N", H], [3, "E", "e1"]],
+    "open": [[1, "N", H], [4, "N", H]],
+}
+SUBJ_OPS = [[], [["delay", {"d": 1}]], [["skip_last", {"n": 1}]], [["pairwise", {}]], [["take_last", {"n": 1}]], [["buffer_with_count", {"n": 2, "s": None}]], [["take_last_buffer", {"n": 1}]], [["sample", {"d": 2}]]]
+
+
+def _each_subject_cases(tier):
+    for ki, k in enumerate(SUBJ_KINDS):
+        for atom, pair in ATOMS.items():
+            hero = PAIRS[pair]
+            u = {"num": atom if pair == "num" else None, "pairs": [] if pair == "num" else [pair]}
+            for sn, script in SUBJ_SCRIPTS.items():
+                for oi, ops_ in enumerate(SUBJ_OPS):
+                    c = dict(k)
+                    c["script"] = script
+                    c["subs"] = [{"at": at, "ops": ops_, "unsub": None} for at in (0, 4, 9)]
+                    yield {"s": _subst(c, hero, None), "u": u, "inner": None}
 
 
 def _run_subject_once(c, N, inner):
@@ -494,7 +621,9 @@ def _run_subject(case):
 def checks(tier):
     q = tier == "quick"
     return [
+        Check("each_op", _run_pipeline, cases=_each_cases, shards={"quick": 8, "thorough": 16}, exhaustive=True),
         Check("pipelines", _run_pipeline, strategy=_pipe_cases(4 if q else 6), examples={"quick": 1600, "thorough": 16 * 12000}, shards={"quick": 8, "thorough": 16}),
-        Check("per_op", _run_pipeline, strategy=_per_op_cases(), examples={"quick": 2400, "thorough": 16 * 8000}, shards={"quick": 8, "thorough": 16}),
-        Check("subjects", _run_subject, strategy=_subject_cases(2 if q else 3), examples={"quick": 1200, "thorough": 16 * 6000}, shards={"quick": 8, "thorough": 16}),
+        Check("per_op", _run_pipeline, strategy=_per_op_cases(), examples={"quick": 1200, "thorough": 16 * 8000}, shards={"quick": 8, "thorough": 16}),
+        Check("each_subject", _run_subject, cases=_each_subject_cases, shards={"quick": 8, "thorough": 16}, exhaustive=True),
+        Check("subjects", _run_subject, strategy=_subject_cases(2 if q else 3), examples={"quick": 800, "thorough": 16 * 6000}, shards={"quick": 8, "thorough": 16}),
     ]
